@@ -103,7 +103,7 @@ Lookup(s, E, n) ==
     LET l == LookupChain(s, E.sc, n) IN
     IF l.found THEN R(l.v, s)
     ELSE LET c == CtxGet(s, E.cx, n)
-             s2 == Log(s, <<"resolve", s.cx[E.cx].tpl, n>>) IN
+             s2 == Log(s, <<"resolve", E.tpl, n>>) IN
          IF c.found THEN R(c.v, s2) ELSE R(VUndef([k |-> "name", n |-> n]), s2)
 
 \* all names visible from a scope chain, innermost winning (for include/import with context)
@@ -858,7 +858,7 @@ Ex(st, s, E) ==
                 IF p.n = "?" THEN Fail(r.S, "EXCLUDED").S
                 ELSE IF ~p.ok THEN Fail(r.S, "TemplateNotFound").S
                 ELSE IF r.S.cx[E.cx].par # "" THEN Fail(r.S, "TemplateRuntimeError").S   \* extended twice
-                ELSE LET s1 == Log(r.S, <<"load", p.n>>)
+                ELSE LET s1 == Log(r.S, <<"load", E.tpl, p.n>>)
                          s2 == RegisterBlocks(s1, E.cx, p.n) IN
                      [s2 EXCEPT !.cx[E.cx].par = p.n]
       [] st.k = "include" ->
@@ -867,7 +867,7 @@ Ex(st, s, E) ==
            ELSE LET p == PickTemplate(r.v) IN
                 IF p.n = "?" THEN Fail(r.S, "EXCLUDED").S
                 ELSE IF ~p.ok THEN (IF st.ignore_missing THEN r.S ELSE Fail(r.S, "TemplateNotFound").S)
-                ELSE LET s1 == Log(r.S, <<"load", p.n>>) IN
+                ELSE LET s1 == Log(r.S, <<"load", E.tpl, p.n>>) IN
                      IF st.with_context THEN
                          LET s2 == ChildCtx([s1 EXCEPT !.out = <<>>], p.n, Visible(s1, E))
                              rr == RenderTemplateBody(p.n, LastCtx(s2), s2, E.dep + 1) IN
@@ -883,7 +883,7 @@ Ex(st, s, E) ==
            ELSE LET p == PickTemplate(r.v) IN
                 IF p.n = "?" THEN Fail(r.S, "EXCLUDED").S
                 ELSE IF ~p.ok THEN Fail(r.S, "TemplateNotFound").S
-                ELSE LET s1 == Log(r.S, <<"load", p.n>>)
+                ELSE LET s1 == Log(r.S, <<"load", E.tpl, p.n>>)
                          m == IF st.with_context THEN MakeModule(p.n, Visible(s1, E), s1, E)
                               ELSE DefaultModule(p.n, s1, E) IN
                      IF Bad(m) THEN m.S
@@ -997,6 +997,16 @@ C15_TemplateTextVerbatim == Cfg.all_auto => \A i \in 1..Len(S.out) : S.out[i].o 
 \* without autoescaping anywhere nothing is ever escaped unless the program asks for it
 C16_OffNeverEscapes ==
     (Cfg.none_auto /\ Case.neutral) => \A i \in 1..Len(S.out) : S.out[i].e = 0
+
+\* C32: the interpreter only looks up, in a template's context, names that occur in that template
+\* (syntactic fact `names` supplied with the program), and only loads templates that the loading
+\* template references by a constant name, unless that template has a dynamic reference ("?")
+SeqToSet(q) == {q[j] : j \in 1..Len(q)}
+C32_LookupsSyntactic ==
+    \A j \in 1..Len(S.log) :
+        /\ S.log[j][1] = "resolve" => S.log[j][3] \in SeqToSet(Tpls[S.log[j][2]].names)
+        /\ S.log[j][1] = "load" =>
+              (S.log[j][3] \in SeqToSet(Tpls[S.log[j][2]].refs) \/ "?" \in SeqToSet(Tpls[S.log[j][2]].refs))
 
 \* C29: a second render in the same engine gives the same result as the first
 C29_Repeatable == (phase = "done" /\ npass = 2) => [err |-> result.err, out |-> result.out] = first
